@@ -64,7 +64,8 @@ def r13_1(ctx, prog, crate):
             ctx.check(all(b.dominates(cs[0].bb, r) for r in b.returns), "R13.1", ["FilterSet::" + fn, "every-filter-is-stored"],
                       "FilterSet::%s can return without storing the filter it was given" % fn, cs[0].line())
     b = prog.body("config::filter::FilterSet::insert_filter", crate)
-    if ctx.anchor("R13.1", "FilterSet::insert_filter", 1 if b else 0, 1):
+    # (the shared helper is optional: include/exclude may call SplitVec::insert themselves - checked above either way)
+    if b is not None and ctx.anchor("R13.1", "FilterSet::insert_filter", 1, 1):
         cs = [c for c in b.live_calls() if c.callee == "util::split_vec::SplitVec::insert"]
         ok = len(cs) == 1 and {z.label() for z in b.prov.op_src(cs[0].args[1])} == {"param:" + b.param_name(2)} and \
             {z.label() for z in b.prov.op_src(cs[0].args[2])} == {"param:" + b.param_name(3)} and \
